@@ -29,6 +29,13 @@ CHECKS = {
               'predicates renamed) are both executed on SQLite through the real pipeline; rows must be equal as multisets keyed by column '
               'name, only List element order and tie choices being admitted. Fact permutation permutes the arrival order at aggregate UDFs.'),
         note='trusted: the reference evaluator only for which columns are List-like / tied'),
+    'C08': dict(
+        category='exploration', design_ref='DESIGN.md 4/C08',
+        technique='runtime monitor: metamorphic comparison across all assignments of plan annotations on the real pipeline + SQLite; sqlite authorizer probe shows the plan really changed',
+        text=('For generated programs every assignment of @NoInject/@With/@NoWith/@Ground to up to 2 (quick) / 3 (thorough) intermediate '
+              'predicates is compiled and executed on SQLite; rows of the annotated predicates and of their readers must equal the '
+              'unannotated run (itself compared with the reference). The SQLite authorizer probe must see grounded tables created and read.'),
+        note='trusted: admissible differences (List order, ties) from the reference evaluator'),
     'C14': dict(
         category='exploration', design_ref='DESIGN.md 4/C14',
         technique='runtime trace monitor: start events recorded at the sql_runner boundary checked offline against a trace specification; icontract post-conditions on the scheduler state; stop-signal fault injection',
